@@ -70,6 +70,7 @@ impl C13 {
             ("string-index-sweep", str_cells * 3),
             ("index-and-value-types", 7 * 3),
             ("string-measure-consistency", if ctx.flavour == Flavour::Miri { 40 } else { 4 * 6 * 8 * 3 }),
+            ("failed-write-leaves-unchanged", if ctx.flavour == Flavour::Miri { 30 } else { (FW_SEQS.len() * FW_WRITES.len()) as u64 }),
             ("directed", directed().len() as u64),
             ("random-op-sequences", rnd),
         ])
@@ -318,7 +319,60 @@ fn random_ops(r: &mut Rng) -> Vec<Stmt> {
     p
 }
 
+/// sequences and failing element assignments for the `failed-write-leaves-unchanged` family
+const FW_SEQS: [&str; 6] = ["[1, 2, 3]", "[\"a\", [2.5], 3]", "\"hello\"", "\"aé€💖\"", "[7]", "\"z\""];
+const FW_WRITES: [&str; 14] = [
+    "x[9] = \"q\"", "x[-9] = \"q\"", "x[lengte(x)] = \"q\"", "x[0 - lengte(x) - 1] = \"q\"", "x[ja] = \"q\"", "x[\"0\"] = \"q\"", "x[1.5] = \"q\"", "x[[0]] = \"q\"",
+    "x[99] = 5", "x[0] = onbekende_naam", "x[0] = 1 / 0", "x[1 / 0] = \"q\"", "x[0] = x[99]", "stel y = x; y[50] = \"q\"",
+];
+
 impl C13 {
+    /// A failed element assignment "leaves the sequence unchanged". Inside one evaluation the error ends the program, so
+    /// nobody can look; on a retained compiler + VM (the prompt) the next line can. Three lines: declare, fail, look —
+    /// through the variable and through an alias made before the failure.
+    fn failed_write(&self, ctx: &Ctx, i: u64, st: &mut Stats) {
+        use crate::props::c17::{run_session_real, Line};
+        let total = (FW_SEQS.len() * FW_WRITES.len()) as u64;
+        let i = if ctx.flavour == Flavour::Miri { (i * 7 + ctx.seed) % total } else { i };
+        let seq = FW_SEQS[(i as usize) / FW_WRITES.len()];
+        let write = FW_WRITES[(i as usize) % FW_WRITES.len()];
+        let is_string = seq.starts_with('"');
+        // a string may legitimately take a string at a valid index: only the writes that must fail are kept
+        let lines: Vec<Line> = [format!("stel x = {}; stel alias = x; [x, lengte(x)]", seq), write.to_string(), "[x, lengte(x), alias, lengte(alias)]".to_string(), format!("[{}, lengte({})]", seq, seq)]
+            .iter()
+            .map(|t| Line { text: t.clone(), budget: None })
+            .collect();
+        let (shadow, probes) = if matches!(ctx.flavour, Flavour::Asan | Flavour::Miri) { (nederlang::verif::ShadowMode::Off, false) } else { (nederlang::verif::ShadowMode::Quarantine, true) };
+        let (obs, events) = run_session_real(&lines, shadow, probes);
+        st.evaluations += 1;
+        st.count("programs:failed-write-leaves-unchanged");
+        let text = lines.iter().map(|l| l.text.clone()).collect::<Vec<_>>().join("\n");
+        if !events.is_empty() {
+            st.violation("failed-write-leaves-unchanged:monitor", format!("monitor events {:?}", events), &text);
+            return;
+        }
+        if obs.len() != 4 {
+            return;
+        }
+        let failed = matches!(obs[1].outcome, crate::obs::Outcome::Error(..));
+        if !failed {
+            // the write succeeded (a string index that happens to be valid, an array taking any value): nothing to check
+            st.count("failed-write:write-succeeded");
+            let _ = is_string;
+            return;
+        }
+        st.distinct_hash(hash_str(&text));
+        // before: [x, len]; after: [x, len, alias, len]; fresh: [seq, len]
+        let render = |o: &crate::obs::Outcome| o.render();
+        let (before, after, fresh) = (render(&obs[0].outcome), render(&obs[2].outcome), render(&obs[3].outcome));
+        let want_after = before.trim_end_matches(")").trim_end_matches("]").to_string();
+        // after must be "Value([<x>, <len>, <x>, <len>])" where "Value([<x>, <len>" is the text of `before` without its closing brackets
+        let expect = format!("{}, {}])", want_after, want_after.trim_start_matches("Value(["));
+        if after != expect || before != fresh {
+            st.violation("failed-write-leaves-unchanged:changed", format!("before the failed assignment {}; after it {} (expected {}); a fresh value of the same literal {}; the assignment gave {}", before, after, expect, fresh, render(&obs[1].outcome)), &text);
+        }
+    }
+
     /// What `s[i] = <text of 0, 2 or 3 characters>` does is not documented (DESIGN 4.3(7)) — but whatever the string
     /// is afterwards, `lengte`, indexing from the front and from the back, and every alias must describe THAT string:
     /// measured by character, consistently. The oracle needs no model of the assignment: it compares the string the
@@ -384,6 +438,10 @@ impl Check for C13 {
             let (_, name, i) = self.fams(ctx).locate(idx);
             if name == "string-measure-consistency" {
                 self.measure_consistency(ctx, i, st);
+                return;
+            }
+            if name == "failed-write-leaves-unchanged" {
+                self.failed_write(ctx, i, st);
                 return;
             }
         }
